@@ -530,11 +530,11 @@ def sendNew (k : Kcp) (buf : Bytes) : List Seg :=
 theorem send_eq (k : Kcp) (buffer : Bytes) :
     send k buffer =
       if buffer.length = 0 then ⟨k, -1, false⟩ else
+      if sendCount (buffer.drop (sendExt k buffer)) k.mss.toNat > 255 then
+        ⟨k, -2, false⟩ else
       if sendPanic1 k (sendExt k buffer) then ⟨k, 0, true⟩ else
       if k.stream ≠ 0 ∧ (buffer.drop (sendExt k buffer)).length = 0 then
         ⟨{ k with snd_queue := sendQ1 k buffer (sendExt k buffer) }, 0, false⟩ else
-      if sendCount (buffer.drop (sendExt k buffer)) k.mss.toNat > 255 then
-        ⟨{ k with snd_queue := sendQ1 k buffer (sendExt k buffer) }, -2, false⟩ else
       if min (buffer.drop (sendExt k buffer)).length k.mss.toNat > mtuLimit then
         ⟨{ k with snd_queue := sendQ1 k buffer (sendExt k buffer) }, 0, true⟩ else
       ⟨{ k with snd_queue := sendQ1 k buffer (sendExt k buffer) ++ sendNew k (buffer.drop (sendExt k buffer)) }, 0, false⟩ := rfl
